@@ -18,7 +18,7 @@ Lemma show_label_covered :
              (mkSrc true true false false true) false NAttr = true.
 Proof.
   split; [vm_compute; reflexivity|]. split; [vm_compute; reflexivity|].
-  split; [left; reflexivity|].
+  split; [vm_compute; tauto|].
   split; [apply (nth_error_In _ (leaf_index (class_schema "Cuboid") ["label"])); vm_compute; reflexivity|].
   vm_compute. reflexivity.
 Qed.
